@@ -16,6 +16,7 @@ CONSTANTS
   LineSet = {"elif", "else", "endif", "def", "undef"}
   MaxD = 0
   AtomSet = {"0"}
+  GapSet = {"sp"}
   OpSet = {"+"}
 INIT Init
 NEXT Next
